@@ -68,6 +68,7 @@ pub enum V {
     CloneOf(Box<V>),
     FromBits(usize, Box<V>),
     VecWords(Vec<usize>),
+    FromArr(bool, Box<S>), // Seq::from(&SeqArray) (false) / Seq::from(SeqArray) (true) of a hand-built array
 }
 
 /// borrowed slices
@@ -77,6 +78,7 @@ pub enum S {
     Sl(Form, usize, usize, Box<S>),
     Kd(usize, Box<S>),
     Lit(usize),
+    Arr(Box<S>), // the same content presented as a hand-built SeqArray<A, N, W> (Deref)
 }
 
 pub struct Toks<'a> {
@@ -245,6 +247,14 @@ fn parse_v_kw(k: &str, t: &mut Toks) -> PResult<V> {
             }
             V::FromWords(n, ws)
         }
+        "fromarr" => {
+            let byval = match t.next()? {
+                "ref" => false,
+                "val" => true,
+                _ => return Err("fromarr kind".into()),
+            };
+            V::FromArr(byval, Box::new(parse_s(t)?))
+        }
         "vecwords" => {
             let cnt = t.num()?;
             let mut ws = vec![];
@@ -280,6 +290,7 @@ pub fn parse_s(t: &mut Toks) -> PResult<S> {
             S::Kd(kk, Box::new(parse_s(t)?))
         }
         "lit" => S::Lit(t.num()?),
+        "arr" => S::Arr(Box::new(parse_s(t)?)),
         _ => S::Val(Box::new(parse_v_kw(k, t)?)),
     })
 }
